@@ -80,7 +80,7 @@ def extract(repo="/repo", profile="dev", all_targets=False, quiet=False, crates=
     key = tree_hash(repo, extra="%s|%s|%s|%s" % (profile, all_targets, crates, os.path.abspath(repo)))
     os.makedirs(CACHE, exist_ok=True)
     d = os.path.join(CACHE, key)
-    lock = open(os.path.join(CACHE, ".lock"), "w")
+    lock = open(os.path.join(CACHE, ".lock-" + key), "w")
     fcntl.flock(lock, fcntl.LOCK_EX)
     try:
         if os.path.exists(os.path.join(d, "DONE")):
@@ -108,12 +108,16 @@ def extract(repo="/repo", profile="dev", all_targets=False, quiet=False, crates=
             (e for e in os.listdir(CACHE) if os.path.isdir(os.path.join(CACHE, e))),
             key=lambda e: os.path.getmtime(os.path.join(CACHE, e)),
         )
-        for e in ents[:-6]:
+        for e in ents[:-40]:
             shutil.rmtree(os.path.join(CACHE, e), ignore_errors=True)
         return d
     finally:
         fcntl.flock(lock, fcntl.LOCK_UN)
         lock.close()
+        try:
+            os.unlink(os.path.join(CACHE, ".lock-" + key))
+        except OSError:
+            pass
 
 
 class ExtractionError(Exception):
